@@ -239,6 +239,64 @@ def mw_shapes(tier):
                 for cut in range(0, n):
                     r1 = {"k": "route", "c": handler_id(1, ["0", "0", "0"])}
                     shapes.append(ops[:cut] + [r1] + ops[cut:] + [route])
+    shapes += mw_tree_shapes(tier)
+    return shapes
+
+
+def mw_tree_shapes(tier):
+    """SIBLING nested blueprints (the words above only nest along one path): middlewares registered before, between,
+    inside and after sibling `nest` calls. Every route must see exactly the middlewares registered before it on its own
+    path from the root: nothing of a sibling, nothing registered later.
+      S1: [X, nest([Y, R1]), Z, nest([W, R0])]
+      S2: [X, nest([Y, nest([R1])]), nest([Z, nest([R0])])]
+      S3: [nest([Y, R1]), Z, R0]                      (a route of the parent after a nested sibling)
+      S4: [X, nest([R1]), nest([Y, R0]), Z]           (Z registered after both: must not run)
+    X, Y, Z, W range over {none, pre, post, wrap} (quick: the subsets listed below)."""
+    kinds = [None, "pre", "post", "wrap"]
+    r0 = {"k": "route", "c": handler_id(0, ["0", "0", "0"])}
+    r1 = {"k": "route", "c": handler_id(1, ["0", "0", "0"])}
+
+    def build(structure, choice):
+        counters = {"pre": 0, "post": 0, "wrap": 0}
+        ops = {}
+        for name, k in choice.items():
+            if k is None:
+                ops[name] = []
+                continue
+            counters[k] += 1
+            if counters[k] > 3:
+                return None
+            ops[name] = [{"k": k, "c": mw_id(k, counters[k])}]
+        nest = lambda inner: {"k": "nest", "bp": {"ops": inner}}
+        if structure == "S1":
+            return ops["X"] + [nest(ops["Y"] + [r1])] + ops["Z"] + [nest(ops["W"] + [r0])]
+        if structure == "S2":
+            return ops["X"] + [nest(ops["Y"] + [nest([r1])]), nest(ops["Z"] + [nest([r0])])]
+        if structure == "S3":
+            return [nest(ops["Y"] + [r1])] + ops["Z"] + [r0]
+        if structure == "S4":
+            return ops["X"] + [nest([r1]), nest(ops["Y"] + [r0])] + ops["Z"]
+        raise AssertionError(structure)
+
+    if tier == "quick":
+        domains = {
+            "S1": {"X": [None, "wrap"], "Y": [None, "pre"], "Z": ["pre", "post", "wrap"], "W": [None, "post"]},
+            "S2": {"X": [None], "Y": ["pre", "wrap"], "Z": [None, "post", "wrap"]},
+            "S3": {"Y": ["pre", "wrap"], "Z": ["pre", "post"]},
+            "S4": {"X": [None, "pre"], "Y": ["post", "wrap"], "Z": ["pre", "wrap"]},
+        }
+    else:
+        domains = {"S1": {n: kinds for n in "XYZW"}, "S2": {n: kinds for n in "XYZ"}, "S3": {n: kinds for n in "YZ"},
+                   "S4": {n: kinds for n in "XYZ"}}
+    shapes = []
+    for structure, dom in domains.items():
+        names = list(dom)
+        for combo in itertools.product(*[dom[n] for n in names]):
+            if all(c is None for c in combo):
+                continue
+            sh = build(structure, dict(zip(names, combo)))
+            if sh is not None:
+                shapes.append(sh)
     return shapes
 
 
